@@ -337,6 +337,10 @@ KINDS = [
         P("size", "int", lo=2, hi=72, q=1, edgeDoc=True, none=True, xp="c:marker/c:size", typ=(9, 5, 24), src="Marker.size: integer 2..72 or None"),
         enum("style", "pptx.enum.chart.XL_MARKER_STYLE", none=True, xp="c:marker/c:symbol", src="Marker.style: member of XL_MARKER_STYLE or None"),
     ]),
+    dict(kind="PointMarker", classes=["Marker"], deck="line", path="slides[0].shapes[0].chart.plots[0].series[0].points[0].marker", corpus="-", props=[
+        P("size", "int", lo=2, hi=72, q=1, edgeDoc=True, none=True, xp="c:marker/c:size", typ=(9, 5, 24), src="Marker.size: integer 2..72 or None"),
+        enum("style", "pptx.enum.chart.XL_MARKER_STYLE", none=True, xp="c:marker/c:symbol", src="Marker.style: member of XL_MARKER_STYLE or None"),
+    ]),
     dict(kind="XyPlot", classes=["XyPlot"], deck="xy", path="slides[0].shapes[0].chart.plots[0]", corpus="xyplot", props=[
         boolean("vary_by_categories", src="_BasePlot.vary_by_categories: read/write boolean"),
         boolean("has_data_labels", src="_BasePlot.has_data_labels: read/write boolean"),
